@@ -87,7 +87,9 @@ static void c_enc(const Args &a) {
         if (ad.empty() && a.num("noad")) ret = c->encrypt(out.p, mp, m.size());      // default arguments
         else ret = c->encrypt(out.p, mp, m.size(), adb.p, adb.n);
     } else {
-        ascon::byte_array bm(m.begin(), m.end()), bad(ad.begin(), ad.end()), bc(5, 0x33);
+        // the output array arrives with earlier contents: shorter than, or longer than, the result
+        size_t pre = a.has("pre") ? (size_t)a.num("pre") : ((m.size() + ad.size()) % 2 ? m.size() + 16 + 9 : 5);
+        ascon::byte_array bm(m.begin(), m.end()), bad(ad.begin(), ad.end()), bc(pre, 0x33);
         if (ad.empty() && a.num("noad")) c->encrypt(bc, bm); else c->encrypt(bc, bm, bad);
         ret = (long long)bc.size();
         if (bc.size() <= out.n && bc.size()) memcpy(out.p, bc.data(), bc.size());
@@ -110,7 +112,8 @@ static void c_dec(const Args &a) {
         ret = c->decrypt(out.p, cb.p, ct.size(), adb.p, adb.n);
         mlen = ret;
     } else {
-        ascon::byte_array bc(ct.begin(), ct.end()), bad(ad.begin(), ad.end()), bm(7, 0x44);
+        size_t pre = a.has("pre") ? (size_t)a.num("pre") : ((ct.size() + ad.size()) % 2 ? ct.size() + 3 : 7);
+        ascon::byte_array bc(ct.begin(), ct.end()), bad(ad.begin(), ad.end()), bm(pre, 0x44);
         bool ok = (ad.empty() && a.num("noad")) ? c->decrypt(bm, bc) : c->decrypt(bm, bc, bad);
         ret = ok ? (long long)bm.size() : -1; mlen = (long long)bm.size();
         empty_on_fail = ok || bm.size() == 0;
